@@ -136,6 +136,7 @@ def option_sets():
         "bare_empty": st.booleans(),
         "annotations": st.sampled_from([False, False, True]),
         "unnamed": st.sampled_from([False, False, True]),
+        "subtables": st.sampled_from([False, False, False, True]),
     })
 
 
@@ -657,6 +658,7 @@ CORPUS = [
     _table_case([_T]),
 ]
 CORPUS.append(_table_case([_T], annotations=True))
+CORPUS.append(_table_case([_T, [["x", "y"], ["z"]]], subtables=True))
 CORPUS.append(_table_case([_T, [["x"]]], unnamed=True))
 for _name in ("col_runs", "row_runs", "ws_all", "ws_runs_whole", "paragraphs", "empty_p", "quote_entities", "indent",
               "bare_empty"):
